@@ -89,6 +89,45 @@ def link_table(pages):
     return links
 
 
+def synth_link(name, serial, bs0=64, bs1=128, npk=40, ch=1, rate=8000, ppp=4):
+    """A link written bit by bit by the specification-level synthesiser (block sizes the encoder never uses, e.g. 64-sample short blocks)."""
+    import vspec, vsynth
+    s = vsynth.base_setup(channels=ch, bs0=bs0, bs1=bs1, rate=rate)
+    modes = [((i * 7) // 3) % 2 for i in range(npk)]
+    fl = vsynth.flags_for(s, modes)
+    f = vsynth.Filler(fixed={'f1.nonzero': 1})
+    pk = [vsynth.make_packet(s, m, f, pv, nx) for m, (pv, nx) in zip(modes, fl)]
+    grans, total, prev = [], 0, None
+    for m in modes:
+        n = s.blocksize(s.modes[m].blockflag)
+        if prev is not None:
+            total += prev // 4 + n // 4
+        prev = n
+        grans.append(total)
+    hs = vspec.headers(s, comments=[b'TITLE=' + name.encode()])
+    def lace(b):
+        l = []
+        n = len(b)
+        while n >= 255:
+            l.append(255); n -= 255
+        l.append(n)
+        return l
+    pages = [Page(2, 0, serial, 0, lace(hs[0]), hs[0]), Page(0, 0, serial, 1, lace(hs[1]) + lace(hs[2]), hs[1] + hs[2])]
+    from vlib import pages_from_packets
+    pages += pages_from_packets(pk, serial, grans, ppp, bos=False, eos=True, seq0=2)
+    blob = b''.join(x.encode() for x in pages)
+    path = write_file(name + '.ogg', blob)
+    return path, {'file': path, 'rate': rate, 'ch': ch, 'n': total, 'serial': serial, 'goff': 0, 'tag': name, 'packets': npk, 'pages': len(pages), 'bytes': len(blob), 'bs0': bs0, 'bs1': bs1, 'synth': True}
+
+
+def halfrate_refusal_files():
+    """streams on which ov_halfrate(vf,1) must be refused: some link has 64-sample short blocks"""
+    out = {}
+    out['F9'] = chain('F9', [synth_link('c20_s64', 901, 64, 128, 40)])
+    out['F8'] = chain('F8', [link('A', 801, '3'), synth_link('c20_s64b', 802, 64, 256, 30, ch=2, rate=11025), link('B', 803, '3')])
+    return out
+
+
 def standard_files():
     """The C07/C08/C19/C20 file set. Returns dict name -> (path, meta)."""
     out = {}
